@@ -91,7 +91,7 @@ def run(ctx):
     ctx.rule = ("abstract requests = (credentials configuration x credentials sent, method, URL shape, CID / path / peer / "
                 "body / filter / local class, one class per pin option and per add option, scripted cluster answer); "
                 "enumerated by TLC: every route x every positional class, every option class alone, against a full valid "
-                "profile and pairwise (thorough: triples on Pin/PinPath, add-option pairs, 60000 seeded points of the full "
+                "profile and pairwise (thorough: triples over a core of boundary classes on every option-carrying route, add-option pairs, 60000 seeded points of the full "
                 "product), every URL shape x 7 methods x 22 credential situations; the same valid operations through the "
                 "bundled client with 9 credential situations; non-trivial = credentials configured, or at least one "
                 "malformed component, or issued through the client; distinct by abstract request")
